@@ -370,8 +370,9 @@ where
         let approximate_nbr_frames =
             self.chunk_size as f64 * (0.5 * self.resample_ratio + 0.5 * self.target_ratio);
         let t_ratio_increment = (t_ratio_end - t_ratio) / approximate_nbr_frames;
-        let end_idx =
-            self.chunk_size as isize - (sinc_len as isize + 1) - t_ratio_end.ceil() as isize;
+        let end_idx = self.chunk_size as isize
+            - (sinc_len as isize + 1)
+            - t_ratio.max(t_ratio_end).ceil() as isize;
 
         // Update buffer with new data.
         // The chunk size may have changed since the previous call,
